@@ -195,6 +195,27 @@ def _pick_region(fn, spec):
     if "loop_index" in spec and len(cands) > spec["loop_index"]:
         cands = [cands[spec["loop_index"]]]
     if len(cands) != 1:
+        # the loop is then recognised by what it tests, not by how it iterates: the innermost loop
+        # whose body branches on every atom of the row (a flat_map/zip chain rewritten as nested
+        # loops, an index loop, ...)
+        by_atoms = []
+        for h in sorted(hs):
+            try:
+                rows = region_rows(fn, hs[h][0], [h])
+            except Exception:
+                continue
+            seen = set()
+            for facts, _p, _c, _path in rows:
+                for f in facts:
+                    for a, m in spec["atoms"].items():
+                        if m(fn, f) is not None:
+                            seen.add(a)
+            if seen >= set(spec["atoms"]):
+                by_atoms.append(h)
+        inner = [h for h in by_atoms if not any(o != h and enclosing_loop(fn, o, hs) == h for o in by_atoms)]
+        if len(inner) == 1:
+            cands = inner
+    if len(cands) != 1:
         raise AnchorError("%s: expected one loop over /%s/, found %d (%s)" % (fn.name, spec["region"], len(cands), cands))
     h = cands[0]
     return hs[h][0], [h], h
